@@ -484,6 +484,9 @@ class Series:
     def _mnp_values(self):
         return self._v
 
+    def _from_ufunc(self, r):
+        return Series(r, index=self.index, name=self.name) if r.shape == self._v.shape else r
+
     def __len__(self):
         return len(self._v)
 
